@@ -29,6 +29,19 @@ class P(orders.PyStub):
     def getZ(self):
         return self.z
 
+    def setX(self, v):
+        self.x = v
+
+    def setY(self, v):
+        self.y = v
+
+    def setZ(self, v):
+        self.z = v
+
+    E = property(lambda self: self.x, lambda self, v: setattr(self, 'x', v))
+    N = property(lambda self: self.y, lambda self, v: setattr(self, 'y', v))
+    U = property(lambda self: self.z, lambda self, v: setattr(self, 'z', v))
+
     def copy(self):
         return P(self.x, self.y, self.z)
 
